@@ -18,7 +18,7 @@ INFO = {
                "(d) Context::new_with_input receives (value, position before the parse, position after the parse, "
                "per-file counter, run-wide counter) and stores each in the field of that meaning; every selector "
                "reads its own field; (e) Reader.location is written only by Reader::next, which adds 1 to the line "
-               "and resets the column on 0x0A and adds 1 to the column on every other byte, for all 256 bytes. A file that ends inside a value is a recoverable error, so the files after it are still read.",
+               "and resets the column on 0x0A and adds 1 to the column on every other byte, for all 256 bytes. A file that ends inside a value is a recoverable error, so the files after it are still read. Every derived context carries the input context of the context it was derived from.",
     "not_decided": "That consecutive ranges are contiguous and contain the value's text as a run-time statement "
                    "about arbitrary inputs (follows from (d)+(e) only informally), and directory traversal order "
                    "(the operating system's).",
@@ -481,3 +481,7 @@ def run(ctx, rep):
     # is recoverable; only an I/O error is fatal)
     from rules import c06_shared
     c06_shared.recover(rep, lib, rid="C16-RECOVER", require_recoverable=True)
+    # the input context travels with every derived context (after --split-by, inside map / | / filter ...): the
+    # input_context cell of each Context constructor is a copy of self.input_context (shared with C12)
+    from rules import c12 as _c12
+    common.share(_c12, ctx, rep, {"C12-FRAME"}, key_suffixes=[".input_context"], floors={"C12-FRAME": 5})
